@@ -23,7 +23,7 @@ for ps in spec['proofs']:
     p.loop_labels = b['loop_labels']
     r = p.run_split('quick') if not ps.get('nosplit') else p.run('quick')
     open(wd + '/' + ps['name'] + '.log', 'w').write(p.log)
-    print(ps['name'], r['status'], 'cpu %.1fs' % r['time'], 'wall %.1fs' % (time.time()-t1), 'n=%d' % len(r['results']), 'undecided', r.get('undecided'))
+    print(ps['name'], r['status'], 'cpu %.1fs' % r['time'], 'wall %.1fs' % (time.time()-t1), 'n=%d' % len(r['results']), 'undecided', len(r.get('undecided') or []), (r.get('undecided') or [])[:6])
     for g in r.get('per_group', []):
         if g['time'] > 5 or len(g['attempts']) > 1: print('   slow/fallback:', g)
     ids = {}
